@@ -112,6 +112,14 @@ func runAcceptRow(rep *Report, row *c11Row) {
 		b.WriteString("Sec-WebSocket-Key: " + goodKey + "\r\nSec-WebSocket-Key: " + goodKey + "\r\n")
 	case "empty":
 		b.WriteString("Sec-WebSocket-Key:\r\n")
+	// two header lines, one of them blank: still not "exactly one key" (and whichever value the verifier looked at, the
+	// accept value is computed from the first line)
+	case "blankThenOk":
+		b.WriteString("Sec-WebSocket-Key:\r\nSec-WebSocket-Key: " + goodKey + "\r\n")
+	case "okThenBlank":
+		b.WriteString("Sec-WebSocket-Key: " + goodKey + "\r\nSec-WebSocket-Key:\r\n")
+	case "spacesThenOk":
+		b.WriteString("Sec-WebSocket-Key:    \r\nSec-WebSocket-Key: " + goodKey + "\r\n")
 	case "commaJoined":
 		b.WriteString("Sec-WebSocket-Key: " + goodKey + ", " + goodKey + "\r\n")
 	}
@@ -419,6 +427,61 @@ func exchange(c *websocket.Conn, raw *ws.End, libClient bool, cnct, snct bool, s
 	return nil
 }
 
+// exchangePlain is the exchange on a connection whose handshake did NOT agree on permessage-deflate (no offer, offer declined,
+// response without the extension): the library must not compress -- no frame carries RSV1 -- whatever its own options say, and
+// plain messages travel both ways.
+func exchangePlain(c *websocket.Conn, raw *ws.End, libClient bool, seed int64) error {
+	ctx, cancel := context.WithTimeout(context.Background(), 5*time.Second)
+	defer cancel()
+	const n = 3
+	for k := 0; k < n; k++ {
+		if err := c.Write(ctx, websocket.MessageBinary, exchangeBody(seed, k)); err != nil {
+			return fmt.Errorf("library write %d: %w", k, err)
+		}
+	}
+	frames, rest, err := ws.DecodeAll(raw.In.Snapshot())
+	if err != nil || len(rest) != 0 {
+		return fmt.Errorf("peer cannot parse library frames: %v (%d bytes left)", err, len(rest))
+	}
+	k := 0
+	var cur []byte
+	for _, f := range frames {
+		if f.Rsv1 {
+			return fmt.Errorf("library sent a frame with RSV1 (a compressed message) although permessage-deflate was not agreed")
+		}
+		if f.Op > 2 {
+			continue
+		}
+		if f.Op != ws.OpCont {
+			cur = nil
+		}
+		cur = append(cur, f.Payload...)
+		if f.Fin {
+			if !bytes.Equal(cur, exchangeBody(seed, k)) {
+				return fmt.Errorf("peer received message %d changed", k)
+			}
+			k++
+		}
+	}
+	if k != n {
+		return fmt.Errorf("peer saw %d of %d messages", k, n)
+	}
+	for k := 0; k < n; k++ {
+		f := ws.Frame{Fin: true, Op: ws.OpBin, Masked: !libClient, Key: [4]byte{7, 9, 11, 13}, Payload: exchangeBody(seed+1, k)}
+		raw.Out.Write(f.Encode())
+	}
+	for k := 0; k < n; k++ {
+		_, b, err := c.Read(ctx)
+		if err != nil {
+			return fmt.Errorf("library read %d: %w", k, err)
+		}
+		if !bytes.Equal(b, exchangeBody(seed+1, k)) {
+			return fmt.Errorf("library delivered message %d changed", k)
+		}
+	}
+	return nil
+}
+
 // ---- family: nego (C14) ----
 
 type c14SrvRow struct {
@@ -470,6 +533,9 @@ func runNegoSrv(rep *Report, row *c14SrvRow, seed int64, multiline bool) {
 		return
 	}
 	if !on {
+		if err := exchangePlain(c, peer, false, seed); err != nil {
+			rep.miss("nego-compression-used-without-agreement", id, err.Error())
+		}
 		return
 	}
 	if snct != row.Exp.Snct {
@@ -531,6 +597,8 @@ func runNegoCli(rep *Report, row *c14CliRow, seed int64) {
 		if err := exchange(c, peer, true, row.Exp.Cnct, row.Exp.Snct, seed); err != nil {
 			rep.miss("nego-exchange-failed-under-agreed-parameters", id, err.Error())
 		}
+	} else if err := exchangePlain(c, peer, true, seed); err != nil {
+		rep.miss("nego-compression-used-without-agreement", id, err.Error())
 	}
 }
 
@@ -590,7 +658,10 @@ func runDialRow(rep *Report, row *c13Row) {
 		case "casechanged":
 			h.Set("Sec-WebSocket-Accept", swapCase(ws.AcceptKey(sentKey)))
 		}
-		if row.Resp.Sub != "" {
+		if row.Resp.Sub == "b|a" { // two header lines: the first one is the selection
+			h.Add("Sec-WebSocket-Protocol", "b")
+			h.Add("Sec-WebSocket-Protocol", "a")
+		} else if row.Resp.Sub != "" {
 			h.Set("Sec-WebSocket-Protocol", row.Resp.Sub)
 		}
 		if len(row.Resp.Ext) > 0 {
@@ -614,7 +685,7 @@ func runDialRow(rep *Report, row *c13Row) {
 	case "accept":
 		if c == nil {
 			rep.miss("dial-rejected-valid-response", row, fmt.Sprint(err))
-		} else if c.Subprotocol() != row.Resp.Sub {
+		} else if want := strings.Split(row.Resp.Sub, "|")[0]; c.Subprotocol() != want {
 			rep.miss("dial-subprotocol-not-reported", row, c.Subprotocol())
 		}
 	case "reject":
